@@ -249,7 +249,7 @@ func discharge(o *Obligation, dir string, timeout time.Duration, idx int) {
 		timeout = 4 * time.Second
 	}
 	fname := filepath.Join(dir, fmt.Sprintf("o%04d.smt2", idx))
-	txt := smtFile(o, true)
+	txt := o.smtSliced
 	if len(txt) > 512*1024 {
 		o.Result = "too-large"
 		return
@@ -258,8 +258,8 @@ func discharge(o *Obligation, dir string, timeout time.Duration, idx int) {
 	t0 := time.Now()
 	// quantifier-free relaxation first: fewer hypotheses, so unsat is sound; sat gives a candidate model for replay
 	if o.Kind != "cover" && !hasQuant(o.Goal) {
-		qf := smtFileQ(o, true, true)
-		if qf != txt && !usesPreludeRec(qf) {
+		qf := o.smtQF
+		if qf != "" && qf != txt && !usesPreludeRec(qf) {
 			fq := fname + ".qf.smt2"
 			os.WriteFile(fq, []byte(qf), 0o644)
 			r := runSolver(context.Background(), "z3-new", fq, 2*time.Second)
@@ -283,7 +283,7 @@ func discharge(o *Obligation, dir string, timeout time.Duration, idx int) {
 		}
 		// sat on a sliced problem is a genuine countermodel of the sliced hypotheses; since slicing only drops
 		// hypotheses unrelated to the goal, re-check unsliced to be safe
-		full := smtFile(o, false)
+		full := o.smtFull
 		if full != txt {
 			f2 := fname + ".full.smt2"
 			os.WriteFile(f2, []byte(full), 0o644)
@@ -359,6 +359,17 @@ func modelOf(out string) string {
 }
 
 func dischargeAll(obls []*Obligation, dir string, timeout time.Duration, par int) {
+	// render every SMT text sequentially: Term.String caches and terms are shared between obligations
+	for _, o := range obls {
+		if o.Static {
+			continue
+		}
+		o.smtSliced = smtFile(o, true)
+		o.smtFull = smtFile(o, false)
+		if o.Kind != "cover" && !hasQuant(o.Goal) {
+			o.smtQF = smtFileQ(o, true, true)
+		}
+	}
 	var wg sync.WaitGroup
 	sem := make(chan struct{}, par)
 	for i, o := range obls {
